@@ -219,6 +219,7 @@ type histResult struct {
 
 var reRcpts = regexp.MustCompile(`rcpts=(\d+)`)
 var reBytes = regexp.MustCompile(`bytes=(\d+)`)
+var reCurLine = regexp.MustCompile(`curline=(\d+)`)
 
 const rcptCap = 3
 
@@ -236,6 +237,15 @@ func canonImplState(pc ref.PConfig, s string) string {
 	if pc.MaxBytes == 0 {
 		s = reBytes.ReplaceAllString(s, "bytes=*")
 	}
+	// the line counter matters only through "counter + length of the next line > MaxLineLength" (2000 here);
+	// every line of the alphabet is shorter than 100 octets, so all values below 1000 have the same futures
+	s = reCurLine.ReplaceAllStringFunc(s, func(m string) string {
+		n, _ := strconv.Atoi(m[8:])
+		if n < 1000 {
+			return "curline=lo"
+		}
+		return m
+	})
 	return s
 }
 
